@@ -185,23 +185,38 @@ type Refresh struct {
 	Exp      time.Time
 }
 
-// refreshReq is what TokenRequestByRefreshToken hands to the library.
+// refreshReq is what TokenRequestByRefreshToken hands to the library. With Store.PersistScopes the request
+// wraps the persisted record the way the example storage does: SetCurrentScopes narrows the stored grant itself
+// (that is how narrowing persists along a refresh chain there), so the library must call it only after validation.
 type refreshReq struct {
+	s       *Store
 	r       *Refresh
 	current []string
 }
 
-func (r *refreshReq) GetAMR() []string            { return r.r.AMR }
-func (r *refreshReq) GetAudience() []string       { return r.r.Audience }
-func (r *refreshReq) GetAuthTime() time.Time      { return r.r.AuthTime }
-func (r *refreshReq) GetClientID() string         { return r.r.Client }
-func (r *refreshReq) GetSubject() string          { return r.r.Subject }
-func (r *refreshReq) SetCurrentScopes(s []string) { r.current = s }
+func (r *refreshReq) GetAMR() []string       { return r.r.AMR }
+func (r *refreshReq) GetAudience() []string  { return r.r.Audience }
+func (r *refreshReq) GetAuthTime() time.Time { return r.r.AuthTime }
+func (r *refreshReq) GetClientID() string    { return r.r.Client }
+func (r *refreshReq) GetSubject() string     { return r.r.Subject }
+func (r *refreshReq) SetCurrentScopes(sc []string) {
+	if r.s != nil && r.s.PersistScopes {
+		r.s.scopeMu.Lock()
+		r.r.Scopes = append([]string(nil), sc...)
+		r.s.scopeMu.Unlock()
+		return
+	}
+	r.current = sc
+}
 func (r *refreshReq) GetScopes() []string {
 	if r.current != nil {
 		return r.current
 	}
-	return r.r.Scopes
+	if r.s != nil {
+		r.s.scopeMu.Lock()
+		defer r.s.scopeMu.Unlock()
+	}
+	return append([]string(nil), r.r.Scopes...)
 }
 
 type ccRequest struct {
@@ -276,6 +291,8 @@ type Store struct {
 	AccessLifetime  time.Duration
 	RefreshLifetime time.Duration
 	Policy          ExchangePolicy
+	PersistScopes   bool // SetCurrentScopes of a refresh request writes through to the stored grant (as the example storage does)
+	scopeMu         sync.Mutex
 	SessionStates   bool           // auth requests expose a session_state
 	JWTProfileJWT   bool           // JWTProfileTokenType answers JWT
 	CustomClaims    map[string]any // private claims returned for every token (may collide with registered names)
@@ -540,7 +557,9 @@ func (s *Store) CreateAccessAndRefreshTokens(ctx context.Context, req op.TokenRe
 		if t := s.Tokens[old.AccessID]; t != nil {
 			t.Revoked = true
 		}
-		orig = old.Scopes // the original grant survives rotation; the issuance may be narrower
+		s.scopeMu.Lock()
+		orig = append([]string(nil), old.Scopes...) // the stored grant survives rotation; the issuance may be narrower
+		s.scopeMu.Unlock()
 		client, authTime, amr = old.Client, old.AuthTime, old.AMR
 	} else {
 		orig = append([]string(nil), req.GetScopes()...)
@@ -571,7 +590,7 @@ func (s *Store) TokenRequestByRefreshToken(ctx context.Context, token string) (o
 	if r == nil {
 		return nil, errors.New("simstore: invalid refresh token")
 	}
-	return &refreshReq{r: r}, nil
+	return &refreshReq{s: s, r: r}, nil
 }
 
 func (s *Store) TerminateSession(ctx context.Context, userID, clientID string) error {
@@ -927,7 +946,10 @@ func (s *Store) RefreshSnapshot(tok string) *Refresh {
 	if r == nil {
 		return nil
 	}
+	s.scopeMu.Lock()
 	c := *r
+	c.Scopes = append([]string(nil), r.Scopes...)
+	s.scopeMu.Unlock()
 	return &c
 }
 
